@@ -8,6 +8,7 @@ CONSTANT ExitCodes = {0, 1}
 CONSTANT LaunchFail = TRUE
 CONSTANT SecondReaper = FALSE
 CONSTANT WakeupFd = TRUE
+CONSTANT JobControl = FALSE
 CONSTANT AllowAbort = FALSE
 SPECIFICATION TSpec
 POSTCONDITION Verdicts
